@@ -1,0 +1,5 @@
+//go:build !verif
+
+package res
+
+func verifPoint(string, interface{}) {}
